@@ -32,6 +32,9 @@ type vfLruRaceResult struct {
 	Deadlock   bool             `json:"deadlock_suspected"`
 	Problems   []string         `json:"problems"`
 	ElapsedMs  int64            `json:"elapsed_ms"`
+	// phase 2: retention of live entries while Cleanup runs concurrently (capacity never reached)
+	RetentionRounds int64 `json:"retention_rounds"`
+	RetentionSweeps int64 `json:"retention_sweeps"`
 }
 
 func TestVF_CacheRace(t *testing.T) {
@@ -151,6 +154,63 @@ func TestVF_CacheRace(t *testing.T) {
 		for _, p := range vfLruCacheProblems(c) {
 			problem("final state: " + p)
 		}
+	}
+	// ---- phase 2: a live entry is never lost while the cache is below capacity, whatever Cleanup does
+	// concurrently.  Each writer owns one key: it stores it already expired, re-stores it with a long
+	// lifetime and looks it up; sweepers call Cleanup in a loop over a cache with many (live) entries, so
+	// that a sweep takes long enough to overlap the writers' stores.
+	if !res.Deadlock {
+		big := vfNewCache(60000)
+		for i := 0; i < 20000; i++ {
+			big.Set(fmt.Sprintf("fill%d", i), int64(i), time.Hour)
+		}
+		var rounds, sweeps int64
+		end := time.Now().Add(time.Duration(vfEnvInt("VERIF_RACE_RETENTION_MS", 1500)) * time.Millisecond)
+		var wg2 sync.WaitGroup
+		for i := 0; i < 8; i++ {
+			wg2.Add(1)
+			go func(i int) {
+				defer wg2.Done()
+				key := fmt.Sprintf("writer%d", i)
+				v := int64(i) << 40
+				for time.Now().Before(end) {
+					v++
+					big.Set(key, v, -time.Nanosecond)
+					v++
+					big.Set(key, v, time.Hour)
+					got, ok := big.Get(key)
+					if x, isInt := got.(int64); !ok || !isInt || x != v {
+						problem(fmt.Sprintf("retention: %s stored live (value %d) below capacity, the next lookup returned (%v, %v) while Cleanup ran concurrently", key, v, got, ok))
+						return
+					}
+					atomic.AddInt64(&rounds, 1)
+				}
+			}(i)
+		}
+		for i := 0; i < 2; i++ {
+			wg2.Add(1)
+			go func() {
+				defer wg2.Done()
+				for time.Now().Before(end) {
+					big.Cleanup()
+					atomic.AddInt64(&sweeps, 1)
+				}
+			}()
+		}
+		fin := make(chan struct{})
+		go func() { wg2.Wait(); close(fin) }()
+		select {
+		case <-fin:
+		case <-time.After(40 * time.Second):
+			res.Deadlock = true
+			problem("watchdog: retention phase still blocked 40 s after its start (deadlock suspected)")
+		}
+		if !res.Deadlock {
+			for _, p := range vfLruCacheProblems(big) {
+				problem("retention phase, final state: " + p)
+			}
+		}
+		res.RetentionRounds, res.RetentionSweeps = atomic.LoadInt64(&rounds), atomic.LoadInt64(&sweeps)
 	}
 	res.Ops["set"], res.Ops["get"], res.Ops["del"], res.Ops["cleanup"] = atomic.LoadInt64(&nSet), atomic.LoadInt64(&nGet), atomic.LoadInt64(&nDel), atomic.LoadInt64(&nClean)
 	res.OpsTotal = res.Ops["set"] + res.Ops["get"] + res.Ops["del"] + res.Ops["cleanup"]
